@@ -1039,7 +1039,9 @@ void
 f_reload_object (void)
 {
   reload_object (sp->u.ob);
-  free_object ((sp--)->u.ob, "f_reload_object");
+  /* create() may have destructed the object: destruct_object() has replaced it on the
+   * stack with 0 then */
+  pop_stack ();
 }
 #endif
 
